@@ -15,6 +15,8 @@ A unit template (units/<name>.rs) is Verus text with directive comments:
   //@probe                                 vacuity probe position (template or replacement text)
   //@ctx <text>                            an assumed-context statement, copied to evidence
   //@undecided <text>                      a clause this unit does not decide, copied to evidence
+  //@pin file= fn= [nth=] sha=<16 hex>     a function NOT under contract, pinned by the hash of its code (comments and
+                                           layout ignored): a change makes the unit undecided -> bounded sweep; tools/repin.py
 
 Between //@body and //@endbody only //@rule directives are allowed; the directive pair is
 replaced by the *text taken from /repo* after the dialect map.  `$T`, `$TMAX`, `$TBITS`
@@ -129,6 +131,29 @@ def extract(relpath, fn, nth=1, block=None, bnth=1, end=None, through=None, endx
     first_line = text.count("\n", 0, a) + 1
     sha = hashlib.sha256(seg.encode()).hexdigest()
     return seg, first_line, sha
+
+
+def pin_hash(relpath, fn, nth=1):
+    """sha256[:16] of a function's code (signature to closing brace) with comments blanked and white space
+    collapsed, so that comment and layout edits do not change it."""
+    path = os.path.join(REPO, relpath)
+    if not os.path.exists(path):
+        raise LostAnchor("source file %s not found" % relpath)
+    text = open(path, encoding="utf-8").read()
+    masked = rustlex.mask(text)
+    hits = [m for m in re.finditer(r"\bfn\s+%s\b" % re.escape(fn), masked)]
+    if len(hits) < nth:
+        raise LostAnchor("pinned fn %s (occurrence %d) not found in %s" % (fn, nth, relpath))
+    pos = hits[nth - 1].start()
+    ob = masked.find("{", pos)
+    if ob < 0:
+        raise LostAnchor("pinned fn %s in %s has no body" % (fn, relpath))
+    cb = rustlex.match_brace(masked, ob)
+    # comments blanked (masked), but string literals kept: take code from `text` where masked is not blank,
+    # except inside comments; simplest faithful choice: strip comments with the lexer's comment mask
+    code = rustlex.strip_comments(text[pos:cb + 1]) if hasattr(rustlex, "strip_comments") else masked[pos:cb + 1]
+    code = re.sub(r"\s+", " ", code).strip()
+    return hashlib.sha256(code.encode()).hexdigest()[:16]
 
 
 def _unescape_len(body):
@@ -464,6 +489,7 @@ class Generated:
         self.nprobes = 0
         self.dropped = set()
         self.expects = []
+        self.pins = []
 
 
 WIDTH = {
@@ -528,6 +554,15 @@ def generate(tpl_path, width="u32", vacuity=False):
             if not re.search(kv["re"], txt, re.M):
                 raise LostAnchor("expected text `%s` no longer present in %s (a stand-in's stated facts depend on it)" % (kv["re"], kv["file"]))
             g.expects.append({"file": kv["file"], "re": kv["re"]})
+            i += 1
+        elif s.startswith("//@pin"):
+            # a function the property depends on that is NOT under contract: its code is pinned by hash, a change
+            # makes the unit undecided, which sends the check to the bounded sweep of the real code
+            kv = _parse_kv(s[len("//@pin"):])
+            h = pin_hash(kv["file"], kv["fn"], int(kv.get("nth", 1)))
+            if h != kv.get("sha"):
+                raise LostAnchor("pinned function %s in %s changed (code hash %s, pinned %s): it is not under contract, only the bounded sweep can judge it" % (kv["fn"], kv["file"], h, kv.get("sha")))
+            g.pins.append({"file": kv["file"], "fn": kv["fn"], "sha": h})
             i += 1
         elif s.startswith("//@body"):
             kv = _parse_kv(s[len("//@body"):])
